@@ -15,7 +15,8 @@ macro "gadget_step" : tactic => `(tactic| first
   | (generalize R1cs.isqrt _ _ = o; rcases o with ⟨_ | _, _ | _, v⟩ <;>
       simp only [Bool.false_eq_true, Bool.true_eq_false, ↓reduceIte, Bool.not_true, Bool.not_false, beq_true, beq_false,
         Bool.not_eq_true', Bool.not_eq_false', beq_iff_eq, bne_iff_ne, ne_eq, Bool.not_eq_true, Bool.not_eq_false, Bool.not_not,
-        Bool.true_and, Bool.and_true, Bool.false_and, Bool.and_false, Bool.true_or, Bool.or_true, Bool.false_or, Bool.or_false])
+        Bool.true_and, Bool.and_true, Bool.false_and, Bool.and_false, Bool.true_or, Bool.or_true, Bool.false_or, Bool.or_false,
+        Bool.bne_false, Bool.bne_true, Bool.false_bne, Bool.true_bne, Bool.not_bne])
   | split_ifs)
 
 macro "gadget_eq" : tactic => `(tactic| (
@@ -73,12 +74,12 @@ theorem r1cs_is_nonnegative_eq (x : ℕ) : Gen.Formulas.r1cs_is_nonnegative x = 
   cases h : (x % 2 == 1) <;> simp
 
 theorem r1cs_is_negative_eq (x : ℕ) : Gen.Formulas.r1cs_is_negative x = isNeg x := by
-  unfold Gen.Formulas.r1cs_is_negative
-  cases h : isNeg x <;> simp
+  unfold Gen.Formulas.r1cs_is_negative isNeg
+  cases h : (x % 2 == 1) <;> simp_all
 
 theorem r1cs_abs_eq (x : ℕ) : Gen.Formulas.r1cs_abs x = fabs x := by
-  unfold Gen.Formulas.r1cs_abs fabs
-  cases h : isNeg x <;> simp
+  unfold Gen.Formulas.r1cs_abs fabs isNeg
+  cases h : (x % 2 == 1) <;> simp_all
 
 /-- on a constant: no constraint, the pair of constants computed out of circuit (defect repaired by 05db65d) -/
 theorem r1cs_isqrt_const (x : ℕ) (h : R1cs.Hint) :
